@@ -151,6 +151,10 @@ def apply_model(lst, op):
     if name in ("extend_self", "extend_own_items"):
         lst.extend(list(lst))
         return None
+    if name == "insert_own_items":
+        i = op[1]
+        lst[i:i] = list(lst)
+        return None
     if name in ("update_self", "update_own_items"):
         for k, v in list(lst):
             model_set(lst, k, v)
@@ -257,6 +261,8 @@ def apply_real(d, op, cls):
         return _bounded_cpu(lambda: d.extend(d.items()))
     if name == "update_self":
         return d.update(d)
+    if name == "insert_own_items":
+        return _bounded_cpu(lambda: d.insert(op[1], d.items()))
     if name == "update_own_items":
         return _bounded_cpu(lambda: d.update(d.items()))
     if name == "extend_as":
@@ -596,7 +602,7 @@ def ex_ops():
             ("update_as", "keysobj", (("b", 2), ("a", 1))),
             ("insert_as", "lol", 1, (("b", 2), ("b", 1))),
             ("rebuild", "gen"), ("rebuild", "omd"), ("rebuild", "itemsobj"),
-            ("copy",), ("extend_self",), ("update_self",), ("extend_own_items",), ("update_own_items",),
+            ("copy",), ("extend_self",), ("update_self",), ("extend_own_items",), ("update_own_items",), ("insert_own_items", 1),
             ("fork_copy",), ("fork_ctor",), ("swap",)]
     return ops
 
@@ -674,6 +680,7 @@ def op_strategy():
         st.tuples(st.just("copy")),
         st.tuples(st.sampled_from(["extend_self", "update_self", "extend_own_items", "update_own_items"])),
         st.tuples(st.sampled_from(["fork_copy", "fork_ctor", "fork_extend", "swap"])),
+        st.tuples(st.just("insert_own_items"), st.integers(-3, 3)),
     )
 
 
